@@ -316,3 +316,18 @@ class CompositeExchangeMove(CompositeMove[ExchangeMove]):
             del context.atoms[deleted_indices]
 
             return True
+
+    def to_dict(self) -> dict[str, Any]:
+        """
+        Convert the `CompositeExchangeMove` object to a dictionary representation.
+
+        Returns
+        -------
+        dict[str, Any]
+            A dictionary representation of the `CompositeExchangeMove` object.
+        """
+        dictionary = super().to_dict()
+        attributes = dictionary.setdefault("attributes", {})
+        attributes["bias_towards_insert"] = self.bias_towards_insert
+
+        return dictionary
